@@ -128,8 +128,11 @@ def run_property(spec, tier, seed):
         cases = corpus_cases(spec, st) + st.gen(rng, tier)
         if not cases:
             continue
+        t_h = time.time()
         impl = core.run_harness(binary, st.mode, [c.rust for c in cases], "%s_%s" % (pid, st.name),
                                 as_limit_gb=st.as_limit_gb, shards=st.rust_shards)
+        t_h = time.time() - t_h
+        t_m = time.time()
         model = None
         if model_ok and st.runner:
             try:
@@ -138,6 +141,7 @@ def run_property(spec, tier, seed):
             except Exception as e:
                 log("model evaluation error: %s" % e)
                 broken.append("model evaluation (%s): %s" % (st.name, str(e)[:300]))
+        log("stream %s: %d cases, implementation %.1fs, model %.1fs" % (st.name, len(cases), t_h, time.time() - t_m))
         kinds = {}
         for i, c in enumerate(cases):
             kinds[c.kind] = kinds.get(c.kind, 0) + 1
